@@ -164,16 +164,22 @@ def sign_rule(prog: Program, res: Result, short: str) -> None:
                     l, op, r = n.value.left, n.value.ops[0], n.value.comparators[0]
                     sl = l.slice
                     if isinstance(sl, ast.Tuple) and len(sl.elts) == 2 and isinstance(l.value, ast.Name) and (vec is None or l.value.id == vec):
-                        rows_, cols_ = sl.elts
-                        col_range = isinstance(cols_, ast.Call) and (dotted(cols_.func) or "").split(".")[-1] in ("arange", "range")
-                        row_pivot = isinstance(rows_, ast.Name)
+                        rows_, cols_ = (fi.resolve(x) for x in sl.elts)       # named or written in place
+
+                        def is_range(x):
+                            return isinstance(x, ast.Call) and (dotted(x.func) or "").split(".")[-1] in ("arange", "range")
+
+                        def is_pivot(x):
+                            return isinstance(x, ast.Name) or (isinstance(x, ast.Call) and (dotted(x.func) or "").split(".")[-1] == "argmax")
+                        col_range = is_range(cols_)
+                        row_pivot = is_pivot(rows_) and not is_range(rows_)
                         if row_pivot and col_range:
                             found_test = True
                             facts += 1
                             if not (isinstance(op, ast.Lt) and const(r) == 0):
                                 problems.append(f"flip condition is `{ast.unparse(n.value)}`, not `< 0`")
                             masks[n.targets[0].id] = n
-                        elif isinstance(cols_, ast.Name) and isinstance(rows_, ast.Call):
+                        elif is_range(rows_) and is_pivot(cols_):
                             problems.append("tested entries are (i, pivot): row/column swapped")
         for st in flag_if.body:
             for n in ast.walk(st):
@@ -183,8 +189,18 @@ def sign_rule(prog: Program, res: Result, short: str) -> None:
                 elif isinstance(n, ast.Assign) and len(n.targets) == 1 and isinstance(n.value, ast.UnaryOp) and isinstance(n.value.op, ast.USub) \
                         and ast.unparse(n.value.operand) == ast.unparse(n.targets[0]):
                     tgt, val = n.targets[0], ast.Constant(value=-1)
+                sel = tgt.slice.elts[1] if isinstance(tgt, ast.Subscript) and isinstance(tgt.slice, ast.Tuple) and len(tgt.slice.elts) == 2 else None
+                if isinstance(sel, ast.Subscript) and isinstance(sel.slice, ast.Name) and sel.slice.id in masks:
+                    base = fi.resolve(sel.value)
+                    if isinstance(base, ast.Call) and (dotted(base.func) or "").split(".")[-1] == "arange":
+                        sel = sel.slice          # np.arange(ncols)[mask] selects the masked columns
+                if isinstance(sel, ast.Subscript) and const(sel.slice) == 0 and isinstance(sel.value, ast.Call) and sel.value.args \
+                        and (dotted(sel.value.func) or "").split(".")[-1] in ("nonzero", "where") and isinstance(sel.value.args[0], ast.Name):
+                    sel = sel.value.args[0]      # np.nonzero(mask)[0]
+                if isinstance(sel, ast.Call) and (dotted(sel.func) or "").split(".")[-1] == "flatnonzero" and sel.args and isinstance(sel.args[0], ast.Name):
+                    sel = sel.args[0]
                 if isinstance(tgt, ast.Subscript) and isinstance(tgt.slice, ast.Tuple) and len(tgt.slice.elts) == 2 \
-                        and isinstance(tgt.slice.elts[1], ast.Name) and tgt.slice.elts[1].id in masks:
+                        and isinstance(sel, ast.Name) and sel.id in masks:
                     found_flip = True
                     facts += 1
                     if not (isinstance(tgt.slice.elts[0], ast.Slice) and tgt.slice.elts[0].lower is None and tgt.slice.elts[0].upper is None):
